@@ -11,12 +11,16 @@ import (
 	"errors"
 	"fmt"
 	"io"
+	"strings"
+	"sync"
 	"time"
 
 	"github.com/tychoish/fun"
 	"github.com/tychoish/fun/adt"
 	"github.com/tychoish/fun/dt"
 	"github.com/tychoish/fun/erc"
+	"github.com/tychoish/fun/ers"
+	"github.com/tychoish/fun/ft"
 	"github.com/tychoish/fun/pubsub"
 	"verif/vs"
 	"verif/vs/runner"
@@ -34,6 +38,9 @@ type subject struct {
 	fresh func(pre string) any
 	ops   []op
 }
+
+// doneFns[subject name] releases whatever fresh started (brokers).
+var doneFns = map[string]func(obj any){}
 
 var errA = errors.New("a")
 var errB = errors.New("b")
@@ -153,6 +160,14 @@ func subjects() []subject {
 			}},
 			{"Len", func(_ context.Context, o any) { _ = o.(*erc.Collector).Len() }},
 			{"HasErrors", func(_ context.Context, o any) { _ = o.(*erc.Collector).HasErrors() }},
+			{"Ok", func(_ context.Context, o any) { _ = o.(*erc.Collector).Ok() }},
+			{"Handler", func(_ context.Context, o any) { o.(*erc.Collector).Handler()(errA) }},
+			{"Future+Unwrap", func(_ context.Context, o any) {
+				if err := o.(*erc.Collector).Future()(); err != nil {
+					_ = ers.Unwind(err)
+				}
+			}},
+			{"Add(nil)", func(_ context.Context, o any) { o.(*erc.Collector).Add(nil) }},
 			{"Iterator", func(ctx context.Context, o any) { readSome(ctx, o.(*erc.Collector).Iterator(), 3) }},
 		}},
 		{"adt.Map", []string{"empty", "one"}, func(pre string) any {
@@ -171,6 +186,14 @@ func subjects() []subject {
 			{"Len", func(_ context.Context, o any) { _ = o.(*adt.Map[int, int]).Len() }},
 			{"Keys", func(ctx context.Context, o any) { readSome(ctx, o.(*adt.Map[int, int]).Keys(), 3) }},
 			{"Iterator", func(ctx context.Context, o any) { readSome(ctx, o.(*adt.Map[int, int]).Iterator(), 3) }},
+			{"Check", func(_ context.Context, o any) { _ = o.(*adt.Map[int, int]).Check(1) }},
+			{"Set", func(_ context.Context, o any) { o.(*adt.Map[int, int]).Set(dt.MakePair(4, 4)) }},
+			{"EnsureSet", func(_ context.Context, o any) { _ = o.(*adt.Map[int, int]).EnsureSet(dt.MakePair(1, 5)) }},
+			{"EnsureDefault", func(_ context.Context, o any) { _ = o.(*adt.Map[int, int]).EnsureDefault(6, func() int { return 6 }) }},
+			{"Range", func(_ context.Context, o any) { o.(*adt.Map[int, int]).Range(func(int, int) bool { return true }) }},
+			{"Values", func(ctx context.Context, o any) { readSome(ctx, o.(*adt.Map[int, int]).Values(), 3) }},
+			{"MarshalJSON", func(_ context.Context, o any) { _, _ = o.(*adt.Map[int, int]).MarshalJSON() }},
+			{"UnmarshalJSON", func(_ context.Context, o any) { _ = o.(*adt.Map[int, int]).UnmarshalJSON([]byte(`{"7":7}`)) }},
 		}},
 		{"adt.Atomic", []string{"zero", "set"}, func(pre string) any {
 			a := &adt.Atomic[int]{}
@@ -228,7 +251,100 @@ func subjects() []subject {
 				_, _ = p(ctx)
 			}},
 			{"MarshalJSON", func(_ context.Context, o any) { _, _ = o.(*dt.Set[int]).MarshalJSON() }},
+			{"AddCheck", func(_ context.Context, o any) { _ = o.(*dt.Set[int]).AddCheck(3) }},
+			{"DeleteCheck", func(_ context.Context, o any) { _ = o.(*dt.Set[int]).DeleteCheck(1) }},
+			{"SortQuick", func(_ context.Context, o any) { o.(*dt.Set[int]).SortQuick(func(a, b int) bool { return a < b }) }},
+			{"SortMerge", func(_ context.Context, o any) { o.(*dt.Set[int]).SortMerge(func(a, b int) bool { return a > b }) }},
+			{"Equal(other)", func(_ context.Context, o any) {
+				other := &dt.Set[int]{}
+				other.Add(1)
+				_ = o.(*dt.Set[int]).Equal(other)
+			}},
+			{"other.Equal", func(_ context.Context, o any) {
+				other := &dt.Set[int]{}
+				other.Add(1)
+				_ = other.Equal(o.(*dt.Set[int]))
+			}},
+			{"Extend(other)", func(_ context.Context, o any) {
+				other := &dt.Set[int]{}
+				other.Add(4)
+				o.(*dt.Set[int]).Extend(other)
+			}},
+			{"other.Extend", func(_ context.Context, o any) {
+				other := &dt.Set[int]{}
+				other.Extend(o.(*dt.Set[int]))
+			}},
+			{"UnmarshalJSON", func(_ context.Context, o any) { _ = o.(*dt.Set[int]).UnmarshalJSON([]byte("[5]")) }},
 		}},
+	}
+}
+
+// brokerSubjects: one broker per back-end with one subscriber that keeps
+// receiving; the operations are the broker's public API.
+func brokerSubjects() []subject {
+	type env struct {
+		b      *pubsub.Broker[int]
+		cancel context.CancelFunc
+		sub    chan int
+		fin    chan struct{}
+	}
+	mk := func(name string, build func(ctx context.Context) *pubsub.Broker[int]) subject {
+		doneFns["pubsub.Broker("+name+")"] = func(o any) {
+			e := o.(*env)
+			e.b.Stop()
+			e.cancel()
+			e.b.Wait(context.Background())
+			<-e.fin
+		}
+		return subject{name: "pubsub.Broker(" + name + ")", pres: []string{"running", "stopped"},
+			fresh: func(pre string) any {
+				ctx, cancel := context.WithCancel(context.Background())
+				e := &env{b: build(ctx), cancel: cancel, fin: make(chan struct{}, 1)}
+				e.sub = e.b.Subscribe(ctx)
+				go func() {
+					defer func() { e.fin <- struct{}{} }()
+					for {
+						select {
+						case <-ctx.Done():
+							return
+						case <-e.sub:
+						}
+					}
+				}()
+				if pre == "stopped" {
+					e.b.Stop()
+					e.b.Wait(context.Background())
+				}
+				return e
+			},
+			ops: []op{
+				{"Publish", func(ctx context.Context, o any) { o.(*env).b.Publish(ctx, 1) }},
+				{"Subscribe", func(ctx context.Context, o any) { _ = o.(*env).b.Subscribe(ctx) }},
+				{"Unsubscribe", func(ctx context.Context, o any) { o.(*env).b.Unsubscribe(ctx, o.(*env).sub) }},
+				{"Stats", func(ctx context.Context, o any) { _ = o.(*env).b.Stats(ctx) }},
+				{"Stop", func(_ context.Context, o any) { o.(*env).b.Stop() }},
+				{"Wait", func(ctx context.Context, o any) { o.(*env).b.Wait(ctx) }},
+				{"Populate", func(ctx context.Context, o any) {
+					_ = o.(*env).b.Populate(fun.SliceIterator([]int{7, 8}))(ctx)
+				}},
+			}}
+	}
+	return []subject{
+		mk("chan", func(ctx context.Context) *pubsub.Broker[int] {
+			return pubsub.NewBroker[int](ctx, pubsub.BrokerOptions{})
+		}),
+		mk("chan,parallel", func(ctx context.Context) *pubsub.Broker[int] {
+			return pubsub.NewBroker[int](ctx, pubsub.BrokerOptions{ParallelDispatch: true})
+		}),
+		mk("queue", func(ctx context.Context) *pubsub.Broker[int] {
+			return pubsub.NewQueueBroker(ctx, pubsub.NewUnlimitedQueue[int](), pubsub.BrokerOptions{WorkerPoolSize: 2})
+		}),
+		mk("deque", func(ctx context.Context) *pubsub.Broker[int] {
+			return pubsub.NewDequeBroker(ctx, pubsub.NewUnlimitedDeque[int](), pubsub.BrokerOptions{})
+		}),
+		mk("lifo", func(ctx context.Context) *pubsub.Broker[int] {
+			return pubsub.NewLIFOBroker[int](ctx, pubsub.BrokerOptions{BufferSize: 1}, 2)
+		}),
 	}
 }
 
@@ -281,6 +397,62 @@ func wrapperSubjects() []subject {
 			w := fun.Processor[int](func(context.Context, int) error { return io.EOF }).Once()
 			return func(ctx context.Context) { _ = w(ctx, 1) }
 		}),
+		mk("Operation.Once", func() func(context.Context) {
+			x := 0
+			w := fun.Operation(func(context.Context) { x++ }).Once()
+			return func(ctx context.Context) { w(ctx) }
+		}),
+		mk("Operation.Lock", func() func(context.Context) {
+			x := 0
+			w := fun.Operation(func(context.Context) { x++ }).Lock()
+			return func(ctx context.Context) { w(ctx) }
+		}),
+		mk("Worker.WithLock", func() func(context.Context) {
+			x := 0
+			mu := &sync.Mutex{}
+			w := fun.Worker(func(context.Context) error { x++; return nil }).WithLock(mu)
+			return func(ctx context.Context) { _ = w(ctx) }
+		}),
+		mk("Producer.Lock", func() func(context.Context) {
+			x := 0
+			w := fun.Producer[int](func(context.Context) (int, error) { x++; return x, nil }).Lock()
+			return func(ctx context.Context) { _, _ = w(ctx) }
+		}),
+		mk("Processor.Lock", func() func(context.Context) {
+			x := 0
+			w := fun.Processor[int](func(_ context.Context, v int) error { x += v; return nil }).Lock()
+			return func(ctx context.Context) { _ = w(ctx, 1) }
+		}),
+		mk("Processor.Limit", func() func(context.Context) {
+			x := 0
+			w := fun.Processor[int](func(_ context.Context, v int) error { x += v; return nil }).Limit(2)
+			return func(ctx context.Context) { _ = w(ctx, 1) }
+		}),
+		mk("Handler.Lock", func() func(context.Context) {
+			x := 0
+			w := fun.Handler[int](func(v int) { x += v }).Lock()
+			return func(ctx context.Context) { w(1) }
+		}),
+		mk("Future.Lock", func() func(context.Context) {
+			x := 0
+			w := fun.Future[int](func() int { x++; return x }).Lock()
+			return func(ctx context.Context) { _ = w() }
+		}),
+		mk("adt.Mnemonize", func() func(context.Context) {
+			x := 0
+			w := adt.Mnemonize(func() int { x++; return x })
+			return func(ctx context.Context) { _ = w() }
+		}),
+		mk("ft.Once", func() func(context.Context) {
+			x := 0
+			w := ft.Once(func() { x++ })
+			return func(ctx context.Context) { w() }
+		}),
+		mk("ft.OnceDo", func() func(context.Context) {
+			x := 0
+			w := ft.OnceDo(func() int { x++; return x })
+			return func(ctx context.Context) { _ = w() }
+		}),
 		mk("Handler.Once", func() func(context.Context) {
 			w := fun.Handler[int](func(int) {}).Once()
 			return func(ctx context.Context) { w(1) }
@@ -300,6 +472,9 @@ func pair(s subject, pre string, a, b op) vs.Scenario {
 			cancel()
 			<-fin
 			<-fin
+			if done := doneFns[s.name]; done != nil {
+				done(obj)
+			}
 		}
 		check := func(e *vs.End) (string, string) {
 			if len(e.Races) > 0 {
@@ -318,12 +493,18 @@ func build(tier string) ([]runner.Instance, time.Duration) {
 		bound, budget = 3, 14*time.Minute
 	}
 	var out []runner.Instance
-	for _, s := range append(subjects(), wrapperSubjects()...) {
+	all := append(subjects(), wrapperSubjects()...)
+	all = append(all, brokerSubjects()...)
+	for _, s := range all {
 		for _, pre := range s.pres {
 			for i, a := range s.ops {
 				for j := i; j < len(s.ops); j++ {
 					b := s.ops[j]
-					out = append(out, runner.Instance{Group: s.name, Name: fmt.Sprintf("%s/%s/%s||%s", s.name, pre, a.name, b.name), Bound: bound, Race: true, Scenario: pair(s, pre, a, b)})
+					bd := bound
+					if strings.HasPrefix(s.name, "pubsub.Broker") {
+						bd = bound - 1 // 7-9 threads per program
+					}
+					out = append(out, runner.Instance{Group: s.name, Name: fmt.Sprintf("%s/%s/%s||%s", s.name, pre, a.name, b.name), Bound: bd, Race: true, Scenario: pair(s, pre, a, b)})
 				}
 			}
 		}
